@@ -11,6 +11,7 @@ from vf.world.cmds import ROOT
 from vf.world.proj import Project
 
 META = {
+    "solver_reasoned": 'selectors (job states, selection, failing-command position) and booleans.',
     "real": ["gwf.plugins.cancel.cancel (body)", "gwf.plugins.cancel.cancel_many", "gwf.backends.base.TrackingBackend.cancel/status/__init__/close", "gwf.backends.slurm.SlurmOps.cancel_job", "gwf.backends.sge.SGEOps.cancel_job",
              "gwf.backends.lsf.LSFOps.cancel_job", "gwf.backends.local.LocalOps.cancel_job/Client.cancel", "gwf.backends.utils.call", "gwf.filtering.filter_names",
              "gwf.plugins.status.status and gwf.plugins.run.run (bodies) for the follow-up"],
